@@ -119,7 +119,8 @@ static void run() {
                                "boundaries +-1, every float class incl. signalling NaNs, mistyped values, handles incl. one-past-the-end and UINT32_MAX; all 2^16 values for 16-bit registers on %zu tables", ntables, exhaustive16);
     vp::Rng rng(a.seed * 7001 + a.shard);
     for (size_t ti = 0; ti < ntables && !vp::too_many_failures(); ti++) {
-        Case c; c.t = gen_table(rng);
+        FamilyOpts big; big.max_areas = 6; big.max_size = 20; big.max_regs = 12;
+        Case c; c.t = (ti % 8 == 7) ? gen_table(rng, big) : gen_table(rng);
         size_t nr = c.t.regs.size();
         // per register: boundary values and random ones through both variants
         for (size_t h = 0; h < nr; h++) {
